@@ -60,6 +60,10 @@ def parseEff : String → Option EffKind
   | "d" => some .d
   | "dm" => some .dm
   | "md" => some .md
+  -- a dependent that peeks (`by_ref()` / `.await` polled once with `now_or_never()` and dropped): on a first load it
+  -- reads what `get()` reads and must subscribe the same way
+  | "dp" => some .d
+  | "dq" => some .d
   | _ => none
 
 def parseCfg4 (kind srcs ini eff : String) (via : Bool) : Option Cfg :=
@@ -177,19 +181,84 @@ def stepOp (s : State) (w : List String) : Option State :=
   | ["release"] => some (step s .release)
   | _ => none
 
-def stepLine (d : Option State) (line : String) : Option State × String :=
+/-! ## a paused owner (`Owner::pause` / `resume`), driver level
+
+`spawn_derived!`: `let update_if_necessary = !owner.paused() && needs_rerun(..)`: while the derived's owner is paused the
+task still consumes its notification but does not look at its sources (its `Dirty` state stays) and does not run the
+fetcher; it looks again when it is NOTIFIED again after `resume`.  This lives in the driver, not in `Model/Async.step`:
+the theorems of C10 are about histories without `pause` (a paused history leaves `Inv`: `Dirty` with the channel flag
+cleared).  Driven after the first run only, without effect, manual writes and guards. -/
+
+structure DS where
+  s : State
+  paused : Bool := false
+  usedPause : Bool := false
+  /-- the task consumed a notification while paused and no source write has been made since with the owner running:
+  the derived may stay on its old value "until notified again" -/
+  missed : Bool := false
+  /-- the subscriber peeks (`dp` / `dq`): no reloads are driven -/
+  peek : Bool := false
+
+/-- the poll of the derived's task while its owner is paused (after the first run) -/
+def pollDPaused (s : State) : State :=
+  let s := { s with dWoken := false }
+  match s.pc with
+  | .start => pollD s
+  | .waiting => { s with reg := true, chan := false }
+  | .fetching =>
+    if s.tickFired = true ∧ s.curStatus = .ready then
+      let s := applyResult s
+      { s with reg := true, chan := false }
+    else { s with dataReg := s.tickFired }
+
+def pollNthP (d : DS) (j : Nat) : DS :=
+  let r := readyList d.s
+  match r[j % r.length]? with
+  | some .d => if d.paused then { d with s := pollDPaused d.s, missed := true } else { d with s := pollNth d.s j }
+  | _ => { d with s := pollNth d.s j }
+
+def runIdleP : Nat → DS → DS
+  | 0, d => d
+  | n + 1, d => if (readyList d.s).isEmpty then d else runIdleP n (pollNthP d 0)
+
+def obsP (d : DS) : String :=
+  let o := obs d.s
+  -- "until notified again": a stale value is what a paused owner's derived is allowed to keep
+  if d.missed && oracle d.s == some "stale" then (o.dropRight "fail stale".length) ++ "ok" else o
+
+def stepOpP (d : DS) (w : List String) : Option DS :=
+  let s := d.s
+  let plain := s.eff == .none && !s.once && !s.isLocal && s.lastManual.isNone && !usedGuards s
+  if d.peek && (w.head? == some "set" || w.head? == some "refetch" || w.head? == some "mset") then none else
+  if (w == ["pause"] || w == ["resume"]) && !(plain && !s.firstRun) then none else
+  if d.usedPause && (w.head? == some "mset" || w == ["attach", "h"] || w == ["hold"]) then none else
+  match w with
+  | ["pause"] => some { d with paused := true, usedPause := true }
+  | ["resume"] => some { d with paused := false }
+  | ["poll", j] => j.toNat?.map fun j => pollNthP d j
+  | ["idle"] => some (runIdleP (4 * s.aws.length + 16) d)
+  | ["set", i, _] =>
+    (stepOp s w).map fun s' =>
+      { d with s := s', missed := if (i.toNat?.map fun k => decide (k < s.src.length)) == some true then d.paused else d.missed }
+  | ["refetch"] => (stepOp s w).map fun s' => { d with s := s', missed := d.paused }
+  | _ => (stepOp s w).map fun s' => { d with s := s' }
+
+def stepLine (d : Option DS) (line : String) : Option DS × String :=
   match words line with
   | ["case", n] => (none, s!"case {n}")
   | "cfg" :: rest =>
     match d, parseCfg rest with
-    | none, some c => (some (init c), " ".intercalate ("cfg" :: rest))
+    | none, some c =>
+      let peek := rest[3]? == some "dp" || rest[3]? == some "dq"
+      if peek && (rest.length != 4 || rest[2]? != some "-" || c.once || c.isLocal) then (d, "bad-op")
+      else (some { s := init c, peek := peek }, " ".intercalate ("cfg" :: rest))
     | _, _ => (d, "bad-op")
   | w =>
     match d with
     | none => (d, "bad-op")
-    | some s =>
-      match stepOp s w with
-      | some s' => (some s', obs s')
+    | some ds =>
+      match stepOpP ds w with
+      | some d' => (some d', obsP d')
       | none => (d, "bad-op")
 
 def main : IO Unit := runDriver stepLine none
